@@ -24,7 +24,8 @@ BOUNDS = {
     'quick': 'grids (2,2,1), (3,2,1), (1,2,3) [unequal axes]: every voxel either blocked or passable with energy any real in [0,1] '
              '(threshold 5), start at voxel 0 (translation symmetry) and every stop voxel, methods dijkstra / bellman-ford / dijkstra-exp / simple / minmax-energy, faces-only and '
              'diagonal; percolation on (2,1,1), (1,2,1), (1,1,2), (1,1,1) along x, y, z, xy with 1-2 peaks; graph structure on (2,2,2), (3,2,1); '
-             'wrapped_sites / frac_sites for arbitrary integer voxel coordinates in [-50,50] and dims in [1,9]',
+             'wrapped_sites / frac_sites for arbitrary integer voxel coordinates in [-50,50] and dims in [1,9]; '
+             '*_after_other_graph jobs: the same FreeEnergyVolume object built a graph with the opposite neighbourhood setting first',
     'thorough': 'additionally (3,2,1) diagonal, (2,3,1) and (2,2,2) faces-only; graph structure on (3,3,1), (2,3,2) with blocked voxels and on (2,3,4), (4,3,2) all passable; real networkx Dijkstra executed symbolically on (2,2,1) faces-only',
 }
 OUTSIDE = ['optimal_n_paths, path_over_structure, total_length', 'grids whose number of simple paths exceeds ~2000 (contract enumerates them)',
@@ -246,6 +247,9 @@ def path_job(params):
             ti = int(sym_int('stop', 1, len(voxels) - 1))
             s, t = voxels[si], voxels[ti]
             fe = gv.FreeEnergyVolume(data=e, lattice=None)
+            if params.get('history'):
+                # the same volume object was asked for a graph with the opposite neighbourhood before: must not matter
+                fe.free_energy_graph(max_energy_threshold=THR, diagonal=not diagonal)
             G = fe.free_energy_graph(max_energy_threshold=THR, diagonal=diagonal)
             full = adjacency(shape, ALL26 if diagonal else FACES)
             impl = adjacency(shape, IMPLEMENTED_DIAG if diagonal else FACES)
@@ -322,6 +326,8 @@ def path_job_replay(params, inputs):
     if s == t:
         return True, 'start == stop'
     fe = gv.FreeEnergyVolume(data=e, lattice=None)
+    if params.get('history'):
+        fe.free_energy_graph(max_energy_threshold=THR, diagonal=not diagonal)
     G = fe.free_energy_graph(max_energy_threshold=THR, diagonal=diagonal)
     full = adjacency(shape, ALL26 if diagonal else FACES)
     okv = {v: 0 <= e[v] < THR for v in voxels}
@@ -630,6 +636,10 @@ def jobs(tier, seed):
         for m in methods:
             js.append(dict(name=f'path_{"x".join(map(str, shape))}_{"diag" if diag else "faces"}_{m}', fn='path_job',
                            params=dict(shape=list(shape), diagonal=diag, method=m)))
+    for shape, diag, m in [((2, 2, 1), False, 'dijkstra'), ((2, 2, 1), True, 'simple')] + \
+            ([] if tier == 'quick' else [((3, 2, 1), False, 'simple'), ((2, 2, 1), True, 'dijkstra')]):
+        js.append(dict(name=f'path_{"x".join(map(str, shape))}_{"diag" if diag else "faces"}_{m}_after_other_graph', fn='path_job',
+                       params=dict(shape=list(shape), diagonal=diag, method=m, history=True)))
     for shape, pc, k in perc:
         js.append(dict(name=f'percolate_{"x".join(map(str, shape))}_{pc}_{k}peaks', fn='percolate_job', params=dict(shape=list(shape), percolate=pc, npeaks=k)))
     chan = [[0, 0, 0], [1, 0, 0], [2, 0, 0], [1, 2, 0]]   # conducting channel along x (row y=0) + isolated pocket (1,2,0) on a 3x4x1 grid
